@@ -21,7 +21,10 @@ CACHE = os.path.join(VERIF, '.cache') if REPO == '/repo' else os.path.join(VERIF
 CONFIGS = {
     # name: (cargo feature args, extra RUSTFLAGS)
     'default': ([], ''),
-    'noinstr-nightly': (['--no-default-features', '--features', 'instructions'], ''),
+    # the other feature sets the crate supports (props/configs.py compares the analysed functions across them)
+    'none': (['--no-default-features'], ''),
+    'instr-only': (['--no-default-features', '--features', 'instructions'], ''),
+    'nightly-only': (['--no-default-features', '--features', 'nightly'], ''),
     'release': ([], '-C overflow-checks=off -C debug-assertions=off'),
 }
 
